@@ -20,6 +20,7 @@ type DocSpec struct {
 	Idents   []jsonapi.Identifier
 	Included []*ResSpec
 	Meta     map[string]interface{}
+	Links    map[string]jsonapi.Link // top-level links of the caller's own (pagination ...), next to the self link the library adds
 	ResMeta  map[string]interface{} // meta put on the first primary resource (if any)
 	Errors   []jsonapi.Error
 	PrePath  string
@@ -36,6 +37,7 @@ var DocKinds = []string{"nil", "resource", "softcollection", "resources", "wrapp
 type DocOptions struct {
 	Kinds        []string
 	MaxPrimary   int
+	MinPrimary   int // collections hold at least this many resources
 	MaxIncluded  int
 	MinIncluded  int
 	DistinctIncl bool // included resources have pairwise distinct IDs (C11's domain)
@@ -194,14 +196,14 @@ func DrawDoc(t *core.Tape, s *SchemaSpec, o DocOptions) *DocSpec {
 		}
 
 		d.ColType = main
-		n := t.Range(0, o.MaxPrimary)
+		n := t.Range(o.MinPrimary, o.MaxPrimary)
 
 		for i := 0; i < n; i++ {
 			d.Primary = append(d.Primary, DrawResSpec(t, main, drawID(t, o.ExoticIDs, taken)))
 		}
 	case "resources":
 		d.ColType = main
-		n := t.Range(0, o.MaxPrimary)
+		n := t.Range(o.MinPrimary, o.MaxPrimary)
 
 		for i := 0; i < n; i++ {
 			ts := main
@@ -259,6 +261,22 @@ func DrawDoc(t *core.Tape, s *SchemaSpec, o DocOptions) *DocSpec {
 	}
 
 	d.Meta = drawMeta(t)
+
+	if t.Bool(1, 4) {
+		d.Links = map[string]jsonapi.Link{}
+		names := []string{"first", "prev", "next", "last", "related", "describedby", "zz"}
+
+		for i := t.Range(1, 5); i > 0; i-- {
+			n := names[t.Draw(len(names))]
+			l := jsonapi.Link{HRef: fmt.Sprintf("https://example.org/%s?page=%d", n, t.Draw(4))}
+
+			if t.Bool(1, 4) {
+				l.Meta = map[string]interface{}{"count": float64(t.Draw(9)), "a": "b"}
+			}
+
+			d.Links[n] = l
+		}
+	}
 
 	if len(d.Primary) > 0 && t.Bool(1, 4) {
 		d.ResMeta = drawMeta(t)
@@ -466,6 +484,13 @@ func (d *DocSpec) Materialise(schema *jsonapi.Schema, o MatOptions) (*jsonapi.Do
 		}
 	}
 
+	if d.Links != nil {
+		doc.Links = map[string]jsonapi.Link{}
+		for _, k := range sortedLinkKeys(d.Links) {
+			doc.Links[k] = d.Links[k]
+		}
+	}
+
 	doc.Errors = append([]jsonapi.Error(nil), d.Errors...)
 	doc.RelData = map[string][]string{}
 
@@ -583,6 +608,17 @@ func sortedKeysS(m map[string][]string) []string {
 }
 
 // Describe renders the spec for traces.
+func sortedLinkKeys(m map[string]jsonapi.Link) []string {
+	ks := make([]string, 0, len(m))
+	for k := range m {
+		ks = append(ks, k)
+	}
+
+	sort.Strings(ks)
+
+	return ks
+}
+
 func (d *DocSpec) Describe() string {
 	var sb strings.Builder
 
@@ -604,7 +640,7 @@ func (d *DocSpec) Describe() string {
 		fmt.Fprintf(&sb, "\n      errors %d", len(d.Errors))
 	}
 
-	fmt.Fprintf(&sb, "\n      relData %v meta %v", d.RelData, d.Meta)
+	fmt.Fprintf(&sb, "\n      relData %v meta %v links %v", d.RelData, d.Meta, d.Links)
 
 	return sb.String()
 }
